@@ -812,23 +812,36 @@ example : readAll (shaped envA) (encList [.dict tcpFull] ++ (enc recTcpBare ++ [
         intro q hq
         have hq' := List.all_eq_true.mp hk q hq
         obtain ⟨k, v⟩ := q
-        cases k <;> simp at hq'
-        rename_i u
-        refine ⟨by simpa [WF] using hq'.1, by simp [hashable], ?_⟩
-        cases v <;> simp at hq'
-        · simp [WF]
-        · simpa [WF] using hq'.2
-        · simpa [WF] using hq'.2
-        · rename_i l; cases l <;> simp at hq' <;> simp [WF, WFList]
-        · rename_i kvs
-          simp only [WF]
-          rw [WFPairs_iff]
-          intro r hr
-          have := List.all_eq_true.mp hq'.2 r hr
-          obtain ⟨rk, rv⟩ := r
-          cases rk <;> simp at this
-          cases rv <;> simp at this
-          exact ⟨by simpa [WF] using this, by simp [hashable], by simp [WF]⟩
+        simp only [Bool.and_eq_true] at hq'
+        obtain ⟨hk1, hv1⟩ := hq'
+        cases k with
+        | str u =>
+          refine ⟨by simpa [WF] using hk1, by simp [hashable], ?_⟩
+          cases v with
+          | null => simp [WF]
+          | bool b => simp at hv1
+          | int i => simpa [WF] using hv1
+          | float t => simp at hv1
+          | bytes b => simp at hv1
+          | str w => simpa [WF] using hv1
+          | list l =>
+            cases l with
+            | nil => simp [WF, WFList]
+            | cons _ _ => simp at hv1
+          | dict kvs =>
+            simp only [WF]
+            rw [WFPairs_iff]
+            intro r hr
+            have hr' := List.all_eq_true.mp hv1 r hr
+            simp only [Bool.and_eq_true] at hr'
+            obtain ⟨rk, rv⟩ := r
+            cases rk with
+            | str w =>
+              cases rv with
+              | null => exact ⟨by simpa [WF] using hr'.1, by simp [hashable], by simp [WF]⟩
+              | _ => simp at hr'
+            | _ => simp at hr'
+        | _ => simp at hk1
       exact hall p hp
     · rfl
     · decide +kernel
